@@ -242,6 +242,9 @@ def ev(e: Expr, pt: Point):
             pt.opq[e] = pt.rng.randrange(len(e[1]))
         return ev(e[1][int(pt.opq[e])], pt)
     if t == "at":
+        bl = getattr(pt, "blocks", None)
+        if bl and e[1] in bl and len(e[3]) == 2 and all(isinstance(x, Expr) for x in e[3]):
+            return eval_block_entry(bl[e[1]], int(round(ev(e[3][0], pt))), int(round(ev(e[3][1], pt))), pt)
         return ev(e[2], pt)
     if t == "opq":
         if e[1].startswith("unmodelled"):
@@ -257,6 +260,36 @@ def ev(e: Expr, pt: Point):
             pt.opq[key] = float(pt.rng.randrange(0, 2 * pt.nrows)) if e[3] is not None or not e[2] else pt.rng.uniform(-2, 2)
         return pt.opq[key]
     raise NotEvaluable(t)
+
+
+def eval_block_entry(D, r: int, c: int, pt: Point):
+    """entry (r, c) of a matrix assembled by block stores (the last store covering the cell wins; otherwise the base)"""
+    from .values import Arr, DiagMat, Sc
+    for s in reversed(D.stores):
+        r0, r1 = int(round(ev(s["r0"], pt))), int(round(ev(s["r1"], pt)))
+        c0, c1 = int(round(ev(s["c0"], pt))), int(round(ev(s["c1"], pt)))
+        if not (r0 <= r < r1 and c0 <= c < c1):
+            continue
+        v = s["val"]
+        saved = dict(pt.ivs)
+        try:
+            if isinstance(v, Sc):
+                return ev(v.e, pt)
+            if isinstance(v, DiagMat):
+                if r - r0 == c - c0:
+                    pt.ivs[v.iv] = r - r0
+                    return ev(v.on, pt)
+                return ev(v.off, pt)
+            if isinstance(v, Arr) and v.ndim == 2:
+                (sp0, i0), (sp1, i1) = v.axes
+                pt.ivs[i0] = (r - r0) if sp0.concrete != 1 else 0
+                pt.ivs[i1] = (c - c0) if sp1.concrete != 1 else 0
+                return ev(v.elem, pt)
+            raise NotEvaluable("block of unknown kind")
+        finally:
+            pt.ivs.clear()
+            pt.ivs.update(saved)
+    return ev(D.base, pt)
 
 
 def _close(a, b, tol):
